@@ -1,19 +1,26 @@
 #!/bin/bash
-# Run once after a fresh restore (offline): builds the framework from files on disk and warms the build cache.
+# Run once after a fresh restore (offline): builds the framework from files on disk, warms the build cache
+# and runs the engine self-tests.
 set -u
 export GOFLAGS=-mod=mod GOPROXY=off GOSUMDB=off GOTOOLCHAIN=local
 cd /verif || exit 2
 mkdir -p build bin evidence/replays
-cp /repo/go.sum /verif/go.sum
 rc=0
+(cd instr && go build -o /verif/bin/instr .) || { echo "setup: build of instr failed"; rc=2; }
+build_one() {
+  id="$1"
+  if [ -x "h/$id/build.sh" ]; then
+    "h/$id/build.sh" "build/$id" > "build/$id.buildlog" 2>&1 || { echo "setup: build of $id failed"; cat "build/$id.buildlog"; return 2; }
+  else
+    go build -o "build/$id" "./h/$id" > "build/$id.buildlog" 2>&1 || { echo "setup: build of $id failed"; cat "build/$id.buildlog"; return 2; }
+  fi
+}
 for d in h/*/; do
   [ -f "$d/main.go" ] || continue
-  id=$(basename "$d")
-  if [ -x "h/$id/build.sh" ]; then
-    "h/$id/build.sh" "build/$id" > "build/$id.buildlog" 2>&1 || { echo "setup: build of $id failed"; cat "build/$id.buildlog"; rc=2; }
-  else
-    go build -o "build/$id" "./h/$id" > "build/$id.buildlog" 2>&1 || { echo "setup: build of $id failed"; cat "build/$id.buildlog"; rc=2; }
-  fi
+  build_one "$(basename "$d")" || rc=2
 done
+if [ -x build/selftest ]; then
+  build/selftest > build/selftest.log 2>&1 || { echo "setup: engine S selftest failed"; cat build/selftest.log; rc=2; }
+fi
 echo "setup done rc=$rc"
 exit $rc
